@@ -256,6 +256,13 @@ func runPath(prog *ssa.Program, entry *ssa.Function, initFn []*ssa.Function, cfg
 	}
 	in.steps = 0
 	in.callFn(entry, nil, nil)
+	// schedule queries for this path's thread pairs (C16)
+	for _, prn := range in.parRuns {
+		if desc, race := in.raceQuery(prn); race {
+			_, script, obs := in.modelScript(nil)
+			in.viols = append(in.viols, &Violation{Msg: desc, Decisions: append([]int{}, in.decisions...), Script: script, Kind: "race", Observed: obs})
+		}
+	}
 	// overflow obligations for this path
 	if cfg.CheckOverflow && len(in.ovf) > 0 {
 		tb := in.tb
